@@ -647,6 +647,14 @@ pub fn random_op(w: &World, r: &mut Rng, profile: &str) -> Op {
     let a0 = pick_node(r);
     let a1 = pick_node(r);
     let elems: Vec<usize> = live.iter().copied().filter(|i| w.xot.is_element(w.h(*i))).collect();
+    if profile == "clone" && r.chance(1, 10) {
+        // documents with an xml:id index, and clones of whole documents (what a clone's index hands out is part of C12)
+        let docs: Vec<usize> = live.iter().copied().filter(|i| w.xot.is_document(w.h(*i))).collect();
+        if !docs.is_empty() && r.chance(2, 3) {
+            return Op::new(if r.chance(1, 2) { "clone_node" } else { "clone_with_prefixes" }, &[*r.pick(&docs)]);
+        }
+        return Op::new("parse", &[]).s(*r.pick(&["<a xml:id='i1'><b xml:id='i2'/>t</a>", "<a><b xml:id=' i3 '/><c xml:id='x  y'/></a>"]));
+    }
     if profile == "ns" && !elems.is_empty() && r.chance(1, 2) {
         let e = *r.pick(&elems);
         let uris = ["u1", "u2", "u3", "u4"];
